@@ -395,13 +395,30 @@ def DerivePath(inp, tab, ev):
     ref_strings(tab, rn)
     root = py_node(inp["root"])
     with PrfTap(prf) as tap:
-        ok, v = call(root.derive_path, path) if argform(inp) else call(root.derive_path, index_list=path)
+        if inp.get("form") == "iterator":
+            ok, v = call(root.derive_path, iter(path))         # a one-shot iterable: refuse it or honour it, never half-use it
+        else:
+            ok, v = call(root.derive_path, path) if argform(inp) else call(root.derive_path, index_list=path)
     ev["q"] = []
     if inp.get("drop"):
         import gc
         del root                      # only the node that was asked for is kept by the caller
         gc.collect()
     ev["res"] = res_of(ok, v, node_view)
+
+
+@act
+def GenChildren(inp, tab, ev):
+    """bulk child generation: node.generate_children((start, end)) -> the children start..end-1, in order"""
+    from . import refwallet as W
+    st, en = int.from_bytes(bytes(inp["start"]), "big"), int.from_bytes(bytes(inp["end"]), "big")
+    rpar = ref_node(tab, inp["par"])
+    for i in range(st, en):
+        if i < 2 ** 32:
+            W.ckd(tab, rpar, i)
+    par = py_node(inp["par"])
+    ok, v = call(lambda: list(par.generate_children((st, en)) if argform(inp) else par.generate_children(interval=(st, en))))
+    ev["res"] = res_of(ok, v, lambda l: [node_json(c) for c in l])
 
 
 @act
@@ -848,15 +865,34 @@ def Bip85(inp, tab, ev):
     rmaster = ref_node(tab, inp["master"])
     wt = W.ref_bip85(tab, rmaster, app, p, i, prf, word_list)
     ev["wordtab"] = wt or []
-    def request(be):
-        return {"mnemonic": lambda: be.bip39_mnemonic(word_count=p, index=i), "wif": lambda: be.wif(index=i),
-                "xprv": lambda: be.xprv(index=i), "hex": lambda: be.hex(num_bytes=p, index=i),
-                "pwd": lambda: be.pwd(pwd_len=p, index=i)}[app]
+    NAMES = {"mnemonic": ("bip39_mnemonic", "word_count", 24), "hex": ("hex", "num_bytes", 32), "pwd": ("pwd", "pwd_len", 21),
+             "wif": ("wif", None, 0), "xprv": ("xprv", None, 0)}
+
+    def request(be, app=app, p=p, i=i, spell="kw-all"):
+        """one request in one of Python's equivalent spellings (a spelling that omits a parameter is only used when
+        that parameter has its default value)"""
+        meth, pname, pdefault = NAMES[app]
+        m = getattr(be, meth)
+        if pname is None:
+            return (lambda: m(i)) if spell == "pos" else (lambda: m(index=i))
+        if spell == "pos":
+            return lambda: m(p, i)
+        if spell == "kw-reversed":
+            return lambda: m(index=i, **{pname: p})
+        if spell == "index-only" and p == pdefault:
+            return lambda: m(index=i)
+        if spell == "param-only" and i == 0:
+            return lambda: m(**{pname: p})
+        return lambda: m(**{pname: p, "index": i})
     # other wallets of the same process asked the same question first (their answers are not judged here)
     for other in inp.get("warm", []):
         call(request(BIP85DeterministicEntropy(master_node=py_node(other))))
     be = BIP85DeterministicEntropy(master_node=py_node(inp["master"]))
-    f = request(be)
+    # earlier requests on the SAME object, in various spellings (their answers are not judged here either)
+    for h in inp.get("history", []):
+        hi = int.from_bytes(bytes(h["ix"]["mag"]), "big")
+        call(request(be, h["app"], h["p"], hi, h.get("spell", "kw-all")))
+    f = request(be, spell=inp.get("spell", "kw-all"))
     with PrfTap(prf):
         ok, v = call(f)
     ev["res"] = res_of(ok, v, T)
